@@ -441,6 +441,21 @@ impl Ctx {
         }
     }
 
+    /// For oracles that can step over a listed finding inside a case and keep checking the rest
+    /// of it: true (and counted under excluded_known, with `example` kept once) when `sig` is
+    /// listed for this property.
+    pub fn step_over_known(&mut self, check_name: &str, sig: &str, example: impl FnOnce() -> (String, serde_json::Value)) -> bool {
+        if !self.known.contains(sig) {
+            return false;
+        }
+        *self.stats.excluded_known.entry(sig.to_string()).or_insert(0) += 1;
+        if !self.stats.known_examples.contains_key(sig) {
+            let (msg, input) = example();
+            self.stats.known_examples.insert(sig.to_string(), RecordedFailure { check: check_name.to_string(), sig: sig.to_string(), msg, input, shrunk: false });
+        }
+        true
+    }
+
     fn is_known(&self, sig: &str) -> bool {
         self.known.contains(sig)
     }
